@@ -129,7 +129,7 @@ func runC10(c *Ctx) {
 	}
 	long := strings.Repeat("L", 300)
 	keys := append(append([]string{}, c10HostileKeys...), long, "d/"+long, long+"/x")
-	c.R.Rule = fmt.Sprintf("%d sequences per backend instance over buckets {bk1,bk2,bk3} with related contents (bk2/secret, bk2/k, bk1/k, …) and %d hostile keys ('.', '..', 'a/../b', '../bk2/k', empty segments, leading dots, backslashes, percent-encoded dots, 300-byte segments, names equal to backend internals (_meta, bucket/x, metadata, buckets, .modtime-resolution), keys that are path prefixes of others); every operation kind (put, get, head, delete, multi-delete, copy, list, bucket create/delete incl. internal names) is framed by a whole-store snapshot (all buckets, all keys, all bodies and ETags; on real-directory instances also the file tree): nothing outside the addressed (bucket,key) set may change, appear, disappear or become unlistable; mem/bolt: every answer is also compared with the Lean model (keys are opaque); fs: a refusal is allowed; non-trivial = distinct (backend, operation, key)", nSeq, len(keys))
+	c.R.Rule = fmt.Sprintf("%d sequences per backend instance over buckets {bk1,bk2,bk3} with related contents (bk2/secret, bk2/k, bk1/k, …) and %d hostile keys ('.', '..', 'a/../b', '../bk2/k', empty segments, leading dots, backslashes, percent-encoded dots, 300-byte segments, names equal to backend internals (_meta, bucket/x, metadata, buckets, .modtime-resolution), keys that are path prefixes of others); deterministic stages: buckets whose names are string prefixes of each other (pre, prefix, pre-fix) around a delete and a force delete of the shortest, and every kind of listing addressed to a name of the backend's own storage ('.', '..', _meta, metadata, buckets, bucket); every operation kind (put, get, head, delete, multi-delete, copy, list, bucket create/delete incl. internal names) is framed by a whole-store snapshot (all buckets, all keys, all bodies and ETags; on real-directory instances also the file tree): nothing outside the addressed (bucket,key) set may change, appear, disappear or become unlistable; mem/bolt: every answer is also compared with the Lean model (keys are opaque); fs: a refusal is allowed; non-trivial = distinct (backend, operation, key)", nSeq, len(keys))
 	for _, kind := range c.kinds(impl.AllKinds) {
 		for s := 0; s < nSeq; s++ {
 			c10Sequence(c, kind, keys, s)
@@ -227,6 +227,83 @@ func c10Sequence(c *Ctx, kind string, keys []string, seqIdx int) {
 			c.mismatch(Mismatch{Kind: "spec", Backend: kind, Case: append(append([]string{}, r.Lines...), line), Impl: trunc(g, 200),
 				Spec: "key " + sibs[0] + " keeps its headers when its sibling is deleted", Finger: "c10:frame:sibling-keys"})
 			return
+		}
+	}
+	// deterministic (first sequence of every multi-bucket backend): buckets whose names are string
+	// prefixes of each other; deleting / force-deleting the shorter one must not touch the others
+	if seqIdx == 0 && !inst.IsSingle() {
+		all := append(append([]string{}, buckets...), "pre", "prefix", "pre-fix")
+		for _, nb := range []string{"prefix", "pre-fix", "pre"} {
+			l, o := r.MkBucket(nb)
+			judge(l, o, "prefix-buckets-setup")
+		}
+		for _, nb := range []string{"prefix", "pre-fix"} {
+			l, o := r.Put(nb, "k", map[string]string{"X-Amz-Meta-Own": nb}, []byte("in:"+nb))
+			judge(l, o, "prefix-buckets-setup")
+			l, o = r.Put(nb, "d/e", nil, []byte("in:"+nb+"/d/e"))
+			judge(l, o, "prefix-buckets-setup")
+		}
+		for _, force := range []bool{false, true} {
+			if force {
+				l, o := r.Put("pre", "x/y", nil, []byte("doomed"))
+				judge(l, o, "prefix-buckets-setup")
+			}
+			before := takeSnap(r, all)
+			line, obs := r.RmBucket("pre", force)
+			if _, hb := r.HeadBucket("pre"); obs != "ok" && r.fsTrack && strings.HasPrefix(hb, "err ") {
+				// a force delete that removed the bucket and then answered the error of the plain delete after it
+				r.fsAsk("fsrm " + hx("pre"))
+			}
+			after := takeSnap(r, all)
+			c.R.Evaluations++
+			v := frameViolations(before, after, map[string]bool{}, "pre")
+			for _, nb := range []string{"prefix", "pre-fix"} {
+				if _, g := r.Get(nb, "k"); !strings.HasPrefix(g, "obj ") || !strings.Contains(g, hx("X-Amz-Meta-Own")+"="+hx(nb)) {
+					v = append(v, "after the delete "+nb+"/k reads "+trunc(g, 120))
+				}
+			}
+			if len(v) > 0 {
+				c.mismatch(Mismatch{Kind: "spec", Backend: kind, Case: append(append([]string{}, r.Lines...), line), Impl: obs + " ; " + strings.Join(v, " ; "),
+					Spec: "deleting bucket pre changes nothing in buckets prefix and pre-fix", Finger: "c10:frame:bucket-op:prefix-named-buckets"})
+				return
+			}
+			judge(line, obs, "prefix-buckets-delete")
+			l, o := r.MkBucket("pre")
+			judge(l, o, "prefix-buckets-setup")
+		}
+		l, o := r.RmBucket("pre", false)
+		judge(l, o, "prefix-buckets-setup")
+		for _, nb := range []string{"prefix", "pre-fix"} {
+			l, o = r.RmBucket(nb, true)
+			judge(l, o, "prefix-buckets-setup")
+		}
+	}
+	// deterministic (first sequence of every backend): names of the backend's own storage never read
+	// as a bucket, whatever the kind of listing
+	if seqIdx == 0 {
+		for _, nb := range []string{".", "..", "_meta", "metadata", "buckets", "bucket", "./bk2", "bk1/.."} {
+			for _, q := range []ListReq{
+				{Bucket: nb, ClampedMaxKeys: 1000},
+				{Bucket: nb, ClampedMaxKeys: 1000, V2: true},
+				{Bucket: nb, ClampedMaxKeys: 1000, HasDelim: true, Delim: "/"},
+				{Bucket: nb, ClampedMaxKeys: 1000, HasDelim: true, Delim: "|"},
+				{Bucket: nb, ClampedMaxKeys: 1000, HasPrefix: true, Prefix: "bk2/"},
+				{Bucket: nb, ClampedMaxKeys: 1000, HasPrefix: true, Prefix: "bk2/", HasDelim: true, Delim: "/"},
+			} {
+				if strings.Contains(nb, "/") && inst.IsSingle() {
+					continue
+				}
+				line, lo := r.List(q)
+				c.R.Evaluations++
+				if lo.OK {
+					c.mismatch(Mismatch{Kind: "spec", Backend: kind, Case: append(append([]string{}, r.Lines...), line), Impl: trunc(lo.Obs, 300),
+						Spec: "no bucket of that name was created: the listing is refused", Finger: "c10:internal-name-listed:" + nb})
+					return
+				}
+				if !strings.Contains(nb, "/") {
+					judge(line, lo.Obs, "internal-name-listing")
+				}
+			}
 		}
 	}
 	// deterministic (first sequence of every backend): copies whose SOURCE bucket is a name of the
